@@ -15,7 +15,7 @@ timeout 900 ctest --test-dir $WT/_build -j8 --timeout 900 >/dev/null 2>&1; rc_te
 (cd $SD && timeout 600 bash build.sh $WT) >/dev/null 2>&1; rc_mut=$?
 echo "demo_unchanged_rc=$rc_clean build_rc=$rc_build tests_rc=$rc_tests demo_changed_rc=$rc_mut" | tee $OUT/confirm.txt
 rm -rf $WT/_build $WT/bin
-cd /verif
+cd ${VERIF_DIR:-/verif}
 : > $OUT/checks.txt
 for c in "$@"; do
   VERIF_REPO=$WT timeout 1500 ./check $c --tier quick > $OUT/check_$c.out 2>&1; rc=$?
